@@ -40,6 +40,8 @@ types, assume_specifications, spec functions, lemmas):
                                       the closure is lifted into `fn <name>_pred(verif_x: &Elem, <captures>) -> bool { let PAT = verif_x; EXPR }` (EXPR byte-for-byte) and
                                       <name> is the loop std documents for Iterator::position (elements tested front to back, index of the FIRST match, None if none);
                                       //@lift.found| / //@lift.none| = proof lines (erased) at the two exits of that loop
+  //@mapdefault <needle> | <V1, V2, ..>   (DESIGN 9.2 rule 18) in the statement that starts with <needle>, the k-th occurrence of
+                                      `X.map(|p| EXPR).unwrap_or_default()` is read as `(match X { Vk(p) => EXPR, _ => Default::default() })` (Vk = Ok | Some)
   //@okmap? <needle>                 (DESIGN 9.2 rule 15) the statement `E.ok().map(|p| CALL);` that starts with <needle> - value discarded - is read as
                                       `if let Ok(p) = E { CALL; }` (std: Result::ok + Option::map call the closure exactly when E is Ok, with its payload);
                                       skipped (recorded) when no such statement exists, e.g. because the code already uses `if let` / `let else`
@@ -451,6 +453,40 @@ def _lift_position(body, sig, needle, name, elem, extra, clauses, pred_clauses, 
     return body[:m.start()] + new + body[pc + 1:], [pred, loop], info
 
 
+def _mapdefault(body, needle, variants, fname):
+    """Rule 18. Returns (new_body, [info])."""
+    rx = re.compile(r'\s*'.join(re.escape(tok) for tok in needle.split()))
+    start = None
+    for j, d in rc.code_positions(body):
+        if rx.match(body, j) and (j == 0 or not (body[j - 1].isalnum() or body[j - 1] == '_')):
+            start = j; break
+    if start is None:
+        raise CutError('fn %s: statement for mapdefault not found: %s' % (fname, needle))
+    depth, end = 0, None
+    for k, d in rc.code_positions(body, start):
+        c = body[k]
+        if c in '([{': depth += 1
+        elif c in ')]}': depth -= 1
+        elif c == ';' and depth == 0:
+            end = k; break
+    stmt = body[start:end + 1]
+    infos = []
+    for v in variants:
+        m = re.search(r'([A-Za-z_][A-Za-z0-9_]*)\s*\.\s*map\s*\(\s*\|\s*([A-Za-z_][A-Za-z0-9_]*)\s*\|', stmt)
+        if not m:
+            raise CutError('fn %s: fewer `.map(|p| ..).unwrap_or_default()` than listed variants' % fname)
+        po = stmt.index('(', m.start(0) + len(m.group(1)))
+        pc = rc.match_close(stmt, po, '(', ')')
+        tail = re.match(r'\s*\.\s*unwrap_or_default\s*\(\s*\)', stmt[pc + 1:])
+        if not tail:
+            raise CutError('fn %s: `.map(..)` is not followed by `.unwrap_or_default()`' % fname)
+        expr = stmt[m.end():pc].strip()
+        new = '(match %s { %s(%s) => %s, _ => Default::default() })' % (m.group(1), v, m.group(2), expr)
+        infos.append({'fn': fname, 'from': re.sub(r'\s+', ' ', stmt[m.start():pc + 1 + tail.end()]), 'to': new})
+        stmt = stmt[:m.start()] + new + stmt[pc + 1 + tail.end():]
+    return body[:start] + stmt + body[end + 1:], infos
+
+
 def _desugar_in_params(sig):
     """`In(pat) : In<T>` parameter => `verif_in : In<T>` + `let In(pat) = verif_in;` (Rust's own desugaring)."""
     lets = []
@@ -585,14 +621,18 @@ def expand(template_path, repo='/repo'):
             clauses, loops, loopvars, ghosts, dropstmts, c2e, loopbodies, atend, befores = [], {}, {}, [], [], [], {}, [], []
             lifts, lifted_out = [], []
             okmaps = []
+            mapdefaults = []
             loopends = {}
             while i + 1 < len(tpl) and (tpl[i + 1].strip().startswith('//@|') or tpl[i + 1].strip().startswith('//@loop')
                                         or tpl[i + 1].strip().startswith('//@ghost') or tpl[i + 1].strip().startswith('//@dropstmt') or tpl[i + 1].strip().startswith('//@atend') or tpl[i + 1].strip().startswith('//@before')
-                                        or tpl[i + 1].strip().startswith('//@continue_to_else') or tpl[i + 1].strip().startswith('//@loopend') or tpl[i + 1].strip().startswith('//@lift') or tpl[i + 1].strip().startswith('//@okmap')):
+                                        or tpl[i + 1].strip().startswith('//@continue_to_else') or tpl[i + 1].strip().startswith('//@loopend') or tpl[i + 1].strip().startswith('//@lift') or tpl[i + 1].strip().startswith('//@okmap') or tpl[i + 1].strip().startswith('//@mapdefault')):
                 i += 1
                 t = tpl[i].strip()
                 if t.startswith('//@|'):
                     clauses.append('        ' + t[4:].strip())
+                elif t.startswith('//@mapdefault'):
+                    nd, vs = t[len('//@mapdefault'):].split('|', 1)
+                    mapdefaults.append((nd.strip(), [x.strip() for x in vs.split(',')]))
                 elif t.startswith('//@okmap'):
                     okmaps.append(t.split(None, 1)[1].strip())
                 elif t.startswith('//@liftposition'):
@@ -683,6 +723,9 @@ def expand(template_path, repo='/repo'):
             for needle, rep in dropstmts:
                 body, what = _replace_statement(body, needle, rep, name)
                 side.setdefault('replaced_statements', []).append({'fn': name, 'dropped_sha256': hashlib.sha256(what.encode()).hexdigest()[:16], 'dropped_head': re.sub(r'\s+', ' ', what)[:120], 'replacement': rep})
+            for nd, vs in mapdefaults:
+                body, minfos = _mapdefault(body, nd, vs, name)
+                side.setdefault('normalized_statements', []).extend(minfos)
             for nd in okmaps:
                 body, oinfo = _okmap(body, nd, name)
                 if oinfo:
